@@ -21,7 +21,7 @@ NS = "Pysersic.Props.C10."
 OBLIGATIONS = [NS + t for t in ["support_facts", "domain_safe", "repo_bn1d_eq", "sigma_pos", "log_args_pos", "broaden_safe", "radial_differentiable",
                                 "radial_deriv", "singular_factor", "singular_only_at_centre", "gaussPixelTerm_differentiable"]]
 # kernels whose translated source text (Gen/Kernels.lean) is proved equal to the model kernel this property's theorems are about
-GEN_KERNELS = ["render_sersic_2d", "render_gaussian_pixel_term", "render_gaussian_fourier_term"]
+GEN_KERNELS = ["render_sersic_2d", "render_gaussian_pixel_term", "render_gaussian_fourier_term", "generate_prior"]
 MIRRORED_FILES = ["pysersic/rendering.py", "pysersic/priors.py"]
 ASSUMPTIONS = [
     "IEEE overflow/underflow and reverse-mode 0·∞ are runtime effects outside the ℝ theorems: searched by the oracle only",
